@@ -293,7 +293,8 @@ macro_rules! conc_common {
 }
 
 impl Ix for Cri {
-   fn new(_: &Ctx, _: usize) -> Self { Cri(Default::default()) }
+   // created inside the pool of its slot (n0 n1 n2), like Cni: the shard count must not depend on it
+   fn new(ctx: &Ctx, slot: usize) -> Self { Cri(ctx.pool(ctx.n[slot]).install(Default::default)) }
    fn ins(&mut self, _: &Ctx, k: i64, v: i64) {
       let mut u = ();
       let mut w = self.0.to_rel_index_write(&mut u);
@@ -341,7 +342,8 @@ type CfiTy = ascent::rel::rel_full_ind!(r, (i32, i32), [[0, 1]], par, (), (i32, 
 pub struct Cfi(CfiTy);
 
 impl Ix for Cfi {
-   fn new(_: &Ctx, _: usize) -> Self { Cfi(Default::default()) }
+   // created inside the pool of its slot (n0 n1 n2), like Cni: the shard count must not depend on it
+   fn new(ctx: &Ctx, slot: usize) -> Self { Cfi(ctx.pool(ctx.n[slot]).install(Default::default)) }
    fn ins(&mut self, _: &Ctx, k: i64, v: i64) {
       let mut u = ();
       let mut w = self.0.to_rel_index_write(&mut u);
@@ -399,7 +401,8 @@ impl Ix for Cfi {
 pub struct Clat(CLatIndex<(i32,), usize>);
 
 impl Ix for Clat {
-   fn new(_: &Ctx, _: usize) -> Self { Clat(Default::default()) }
+   // created inside the pool of its slot (n0 n1 n2), like Cni: the shard count must not depend on it
+   fn new(ctx: &Ctx, slot: usize) -> Self { Clat(ctx.pool(ctx.n[slot]).install(Default::default)) }
    fn ins(&mut self, _: &Ctx, k: i64, v: i64) { RelIndexWrite::index_insert(&mut self.0, K1::key(k), v as usize); }
    fn raw_cins(&self, k: i64, v: i64) { CRelIndexWrite::index_insert(&self.0, K1::key(k), v as usize); }
    fn get(&self, k: i64) -> Option<Vec<i64>> {
